@@ -30,6 +30,7 @@ type cfgAssign struct {
 type cfgWorld struct {
 	base, dirA, dirB, dirC string
 	portA, portB, portD    int
+	noHome                 bool // start the binary without HOME / XDG_CONFIG_HOME (when the run needs no user directory)
 }
 
 var (
@@ -139,6 +140,13 @@ func (w *cfgWorld) runCfg(assigns []cfgAssign) string {
 	cmd := exec.Command(binPath(), args...)
 	cmd.Dir = w.dirC
 	cmd.Env = append([]string{"TZ=UTC", "HOME=" + w.base, "XDG_CONFIG_HOME=" + filepath.Join(w.base, "xdg"), "PATH=/usr/bin:/bin"}, env...)
+	if _, usesUserDir := inis["userini"]; !usesUserDir {
+		// every second run that does not need it has no user configuration directory at all (as under
+		// `env -i`, a service unit, a minimal container): the other channels must work unchanged
+		if w.noHome {
+			cmd.Env = append([]string{"TZ=UTC", "PATH=/usr/bin:/bin"}, env...)
+		}
+	}
 	var so bytes.Buffer
 	var mu sync.Mutex
 	pr, pw := io.Pipe()
@@ -345,6 +353,16 @@ func c19Stream(o *out, r *rng, thorough bool) {
 			}
 		}
 	}
+	if !thorough {
+		// the other three channels, alone, for the settings that matter most (thorough: everything above)
+		for _, ch := range []string{"cfgenv", "cwdini", "userini"} {
+			for _, s := range []string{"root", "allow-write", "client-whitelist", "read-timeout", "max-clients"} {
+				runs = append(runs, append(base(s), cfgAssign{s, ch, "A"}))
+			}
+		}
+		runs = append(runs, append(base("root"), cfgAssign{"root", "cwdini", "A"}, cfgAssign{"root", "userini", "B"}),
+			append(base("max-clients"), cfgAssign{"max-clients", "cfgenv", "A"}, cfgAssign{"max-clients", "cwdini", "B"}))
+	}
 	if thorough {
 		// all pairs of non-flag channels giving conflicting values
 		for _, s := range []string{"allow-write", "client-whitelist", "max-clients", "read-timeout", "root"} {
@@ -357,6 +375,26 @@ func c19Stream(o *out, r *rng, thorough bool) {
 	}
 	// the default configuration
 	runs = append(runs, []cfgAssign{{"listen-addr", "flag", "A"}})
+	// runs that need no user configuration directory: every second of them - counted separately for
+	// those that use ./config.ini - is started without HOME / XDG_CONFIG_HOME
+	noHome := make([]bool, len(runs))
+	nCwd, nOther := 0, 0
+	for i, as := range runs {
+		usesUser, usesCwd := false, false
+		for _, a := range as {
+			usesUser = usesUser || a.channel == "userini"
+			usesCwd = usesCwd || a.channel == "cwdini"
+		}
+		switch {
+		case usesUser:
+		case usesCwd:
+			noHome[i] = nCwd%2 == 0
+			nCwd++
+		default:
+			noHome[i] = nOther%2 == 1
+			nOther++
+		}
+	}
 	results := make([]string, len(runs))
 	sem := make(chan struct{}, 6)
 	var wg sync.WaitGroup
@@ -368,12 +406,16 @@ func c19Stream(o *out, r *rng, thorough bool) {
 			defer func() { <-sem }()
 			w := newCfgWorld()
 			defer os.RemoveAll(w.base)
+			w.noHome = noHome[i]
 			results[i] = w.runCfg(runs[i])
 		}(i)
 	}
 	wg.Wait()
 	for i, as := range runs {
 		o.count("tested:" + as[len(as)-1].setting)
+		if noHome[i] {
+			o.count("no-user-config-dir")
+		}
 		o.emit("c19 "+encodeAssigns(as), results[i], "", encodeAssigns(as))
 	}
 }
